@@ -438,3 +438,37 @@ Lemma no_self_drift_refuted_empty_value :
     (mkPool "pool" ("g/k", "default") [] [("k", (In, None, [""]))])
     [(nodepool_key, "pool"); ("g/k", "default")].
 Proof. split; vm_compute; reflexivity. Qed.
+
+(* ---------------------------------------------------------------- claim creation vs the hash controller, any interleaving *)
+Definition run_pool (ver : string) (ops : list pool_op) (s : pool_state) : pool_state := fold_left (pool_step ver) ops s.
+
+(* the template a claim is built from: the last edit, whatever the hash controller did in between *)
+Definition current_template (ops : list pool_op) (h0 : string) : string :=
+  fold_left (fun h o => match o with PEdit h' => h' | PHashCtl => h end) ops h0.
+
+Lemma run_pool_template ver ops : forall s, ps_template_hash (run_pool ver ops s) = current_template ops (ps_template_hash s).
+Proof.
+  unfold run_pool, current_template. induction ops as [|o ops IH]; intros s; [reflexivity|].
+  simpl. rewrite IH. destruct o; reflexivity.
+Qed.
+
+(* the stamp of a new claim is the hash of the template it is built from, under the current version *)
+Lemma stamp_is_template_hash_l ver ops s :
+  build_stamp ver (run_pool ver ops s) = (Some (current_template ops (ps_template_hash s)), Some ver).
+Proof. unfold build_stamp. rewrite run_pool_template. reflexivity. Qed.
+
+(* once the hash controller has reconciled (any number of times, at least once) after the claim was built, and the
+   template was not edited again, the claim is not statically drifted - whatever happened before the build *)
+Lemma fresh_claim_not_static_l ver ops s n :
+  let built := run_pool ver ops s in
+  let later := run_pool ver (repeat PHashCtl (S n)) built in
+  static_drifted (fst (ps_ann later)) (snd (ps_ann later)) (fst (build_stamp ver built)) (snd (build_stamp ver built)) = false.
+Proof.
+  intros built later.
+  assert (H : forall m st, ps_ann (run_pool ver (repeat PHashCtl (S m)) st) = (Some (ps_template_hash st), Some ver)
+                          /\ ps_template_hash (run_pool ver (repeat PHashCtl (S m)) st) = ps_template_hash st).
+  { induction m as [|m IH]; intros st; [split; reflexivity|].
+    assert (E : run_pool ver (repeat PHashCtl (S (S m))) st = run_pool ver (repeat PHashCtl (S m)) (pool_step ver st PHashCtl)) by reflexivity.
+    rewrite E. destruct (IH (pool_step ver st PHashCtl)) as [H1 H2]. rewrite H1, H2. split; reflexivity. }
+  subst later. destruct (H n built) as [H1 _]. rewrite H1. simpl. apply fresh_not_static.
+Qed.
